@@ -330,8 +330,8 @@ func runC01(c *Ctx) {
 				}
 				found := false
 				for i, q := range pr.Parent().Params {
-					if q == pr && i < len(CC(site).Args) {
-						v, found = CC(site).Args[i], true
+					if a := ArgOfParam(site, pr.Parent(), i); q == pr && a != nil {
+						v, found = a, true
 					}
 				}
 				if !found {
